@@ -67,10 +67,10 @@ Proof.
     destruct (exc st && (extra st =? 0)) eqn:G; [|discriminate]. split_and G. apply N.eqb_eq in G0.
     inversion Hr; subst. eexists; eexists. split; [reflexivity|]. split; [reflexivity|]. apply (step_Unwind st s f rest); auto.
   - (* Resume *)
-    destruct (flight st && below_top (frames st) s0 && valid_ra r && (extra st =? 0) && negb (mem_N s0 (stale st))) eqn:G; [|discriminate].
-    split_and G. apply N.eqb_eq in G1. apply negb_true_iff in G0. inversion Hr; subst.
-    destruct (step_Resume st s s0 r H G G3 G2 G1 G0) as [A B].
-    eexists; eexists. split; [reflexivity|]. split; [unfold ok_obs; cbn [o_target o_pops]; cbv zeta in A; rewrite A, N.eqb_refl; reflexivity|exact B].
+    destruct (flight st && below_top (frames st) s0 && valid_ra r && (extra st =? 0) && forallb (fun x => x <=? s0) (stale st)) eqn:G; [|discriminate].
+    split_and G. apply N.eqb_eq in G1. inversion Hr; subst.
+    destruct (step_Resume st s s0 r H G G3 G2 G1 (forallb_le _ _ G0)) as [A B].
+    eexists; eexists. split; [reflexivity|]. split; [unfold ok_obs; cbn [o_target o_pops]; rewrite A, N.eqb_refl; reflexivity|exact B].
   - (* Catch *)
     destruct (frames st) as [|f rest] eqn:HF; [discriminate|].
     destruct ((fa + 1 =? f_slot f) && exc st && (extra st =? 0)) eqn:G; [|discriminate]. split_and G.
